@@ -233,3 +233,54 @@ func representativeTable(c *Ctx) {
 	}
 	run.Floor("G-REPR/table", 5)
 }
+
+// parseTable: decision table of the argument parser "Interface[:Name]".
+func parseTable(c *Ctx) {
+	run, prog := c.Run, c.Prog
+	fn := prog.LookupFunc(load.PkgMoq, "parseInterfaceName")
+	if fn == nil {
+		run.Undecided("G-PARSE", "role", "pkg/moq/moq.go", "parseInterfaceName not found")
+		return
+	}
+	pos := prog.Pos(fn.Pos())
+	I, N, X := interp.Tok("Ɨ"), interp.Tok("Ɯ"), interp.Tok("ƶ")
+	colon := interp.Lit(":")
+	cat := func(parts ...*interp.Sym) *interp.Sym {
+		out := &interp.Sym{}
+		for _, p := range parts {
+			out = interp.Concat(out, p)
+		}
+		return out
+	}
+	cases := []struct {
+		desc        string
+		in          *interp.Sym
+		iface, mock string
+	}{
+		{"Interface", I, "Ɨ", "ƗMock"},
+		{"Interface:Name", cat(I, colon, N), "Ɨ", "Ɯ"},
+		{"Interface:Name:more (split at the first colon only)", cat(I, colon, N, colon, X), "Ɨ", "Ɯ:ƶ"},
+	}
+	for _, tc := range cases {
+		m := interp.New(prog)
+		got, err := m.CallFunc(token.NoPos, fn, nil, []interp.Value{tc.in})
+		if err != nil {
+			run.Undecided("G-PARSE/table", tc.desc, pos, "parseInterfaceName cannot be evaluated: "+err.Error())
+			continue
+		}
+		t, _ := got.(interp.Tuple)
+		ok := len(t) == 2
+		gi, gm := "?", "?"
+		if ok {
+			if s, isS := t[0].(*interp.Sym); isS {
+				gi = s.Flat()
+			}
+			if s, isS := t[1].(*interp.Sym); isS {
+				gm = s.Flat()
+			}
+			ok = gi == tc.iface && gm == tc.mock
+		}
+		run.Check("G-PARSE/table", tc.desc, pos, ok, fmt.Sprintf("the argument %q is parsed as interface %q, mock %q; want %q and %q (the mock is named <Interface>Mock, or exactly what follows the first colon)", tc.in.Flat(), gi, gm, tc.iface, tc.mock))
+	}
+	run.Floor("G-PARSE/table", 3)
+}
